@@ -415,6 +415,8 @@ type replayer struct {
 	startPt   int             // the pruner's starting point: tail at the last reset (observed)
 	okPruned  map[int]bool    // heights with a successful Prune call since the last reset (observed)
 	clampSkip map[int]bool    // observed: tail was ahead of the checkpoint and unpruned when a cycle began
+	unsat     map[int]int     // consecutive completed cycles a block has been owed and neither pruned nor failed
+	noRetry   map[int]int     // consecutive completed cycles a failed height was not retried
 	odPending int
 	odDone    chan error
 	nRestart  int
@@ -587,26 +589,52 @@ func (r *replayer) runCycle(viaStart bool, expectCalls int) (cs []call, finished
 	}
 }
 
-// monitor AllOldPruned, evaluated on observed data each time a cycle has ended
-func (r *replayer) monitorAllOld(failed []int) {
+// patience: "within a bounded number of terminating cycles" -- the bound used by the monitors. The code (and
+// the model) need one cycle; an implementation that handled a single header per cycle would still need no
+// more cycles than there are headers. A block is reported only after it has been owed for more than that.
+func (r *replayer) patience() int { return int(r.st.Height()-r.st.TailHeight()) + 3 }
+
+// monitor AllOldPruned, evaluated on observed data each time a cycle has ended: every block older than the
+// window by more than a block time, after the starting point, whose header the store still has, is pruned
+// or recorded as failed -- within patience() completed cycles; a failed one is retried within as many.
+func (r *replayer) monitorAllOld(failed []int, called map[int]bool) {
 	headT := r.st.headTime()
 	cutoffB := headT.Add(-r.window).Add(-r.blockTime)
 	inFailed := map[int]bool{}
 	for _, f := range failed {
 		inFailed[f] = true
 	}
+	K := r.patience()
+	seen := map[int]bool{}
 	for h := int(r.st.TailHeight()); h <= int(r.st.Height()); h++ {
 		t, ok := r.st.timeOf(uint64(h))
 		if !ok || h <= r.startPt || !t.Before(cutoffB) || h == r.odPending {
 			continue
 		}
+		seen[h] = true
 		r.rep.Count("old_blocks_checked", 1)
-		if r.okPruned[h] || inFailed[h] {
+		if r.okPruned[h] {
+			delete(r.unsat, h)
+			delete(r.noRetry, h)
 			continue
 		}
-		what := fmt.Sprintf("after a completed cycle block %d (time %d, head time %d, window %d, block time %d, starting point %d) "+
-			"is older than the window by more than a block time, its header is still in the store, and it is neither pruned nor recorded as failed",
-			h, int64(t.Sub(base)/unit), int64(headT.Sub(base)/unit), int64(r.window/unit), int64(r.blockTime/unit), r.startPt)
+		if inFailed[h] {
+			delete(r.unsat, h)
+			if called[h] {
+				delete(r.noRetry, h)
+			} else if r.noRetry[h]++; r.noRetry[h] > K {
+				r.rep.Violate(sigNoRetry, fmt.Sprintf("height %d is recorded as failed and no Prune call was made for it during the last %d "+
+					"completed cycles", h, r.noRetry[h]), r.replayObj(map[string]any{"height": h}))
+			}
+			continue
+		}
+		r.unsat[h]++
+		if r.unsat[h] <= K {
+			continue
+		}
+		what := fmt.Sprintf("block %d (time %d, head time %d, window %d, block time %d, starting point %d) is older than the window by more "+
+			"than a block time, its header is still in the store, and after %d completed cycles it is neither pruned nor recorded as failed",
+			h, int64(t.Sub(base)/unit), int64(headT.Sub(base)/unit), int64(r.window/unit), int64(r.blockTime/unit), r.startPt, r.unsat[h])
 		if r.clampSkip[h] {
 			r.rep.Violate(sigTailSkip, what+": the header store's tail had moved ahead of the checkpoint, lastPruned() set "+
 				"LastPrunedHeight to the tail although the tail block was never pruned, and a later header deletion skips it (height <= last)",
@@ -614,6 +642,41 @@ func (r *replayer) monitorAllOld(failed []int) {
 		} else {
 			r.rep.Violate(sigOldLeft, what, r.replayObj(map[string]any{"height": h}))
 		}
+	}
+	for h := range r.unsat {
+		if !seen[h] {
+			delete(r.unsat, h)
+		}
+	}
+	for h := range r.noRetry {
+		if !seen[h] {
+			delete(r.noRetry, h)
+		}
+	}
+}
+
+// soak: after the model's steps, more real cycles (always allowed by the environment) so that the bounded
+// monitors can speak; no comparison with the model, monitors only.
+func (r *replayer) soak() {
+	n := r.patience() + 2
+	for i := 0; i < n && !r.aborted; i++ {
+		l0, _ := r.observeCheckpoint(false, "before soak cycle")
+		if t0 := int(r.st.TailHeight()); t0 > l0 && !r.okPruned[t0] {
+			r.clampSkip[t0] = true
+		}
+		_, f0, _ := r.svc.VerifCheckpoint()
+		cs, fin := r.runCycle(false, 4*(int(r.st.Height()-r.st.TailHeight())+1+len(f0)))
+		r.monitorCalls(cs)
+		if !fin {
+			return
+		}
+		r.rep.Count("soak_cycles", 1)
+		called := map[int]bool{}
+		for _, c := range cs {
+			called[int(c.H)] = true
+		}
+		_, failedNow := r.observeCheckpoint(false, "after soak cycle")
+		r.monitorAllOld(failedNow, called)
 	}
 }
 
@@ -624,6 +687,7 @@ func (r *replayer) run() {
 	r.window = time.Duration(in.W) * unit
 	r.blockTime = time.Duration(in.B) * unit
 	r.okPruned, r.clampSkip = map[int]bool{}, map[int]bool{}
+	r.unsat, r.noRetry = map[int]int{}, map[int]int{}
 	r.st = newHStore()
 	for h := in.Tail; h <= in.Head; h++ {
 		_ = r.st.Append(context.Background(), mkHeader(uint64(h), mtime(in.Time[h-1])))
@@ -667,6 +731,7 @@ func (r *replayer) run() {
 	}()
 
 	steps := b.Steps
+replay:
 	for i := 1; i < len(steps) && !r.aborted && len(r.drift) == 0; i++ {
 		s := steps[i]
 		r.stepIdx = i
@@ -706,7 +771,7 @@ func (r *replayer) run() {
 			}
 			if !ended {
 				// the behaviour was cut in the middle of a cycle: nothing to compare it with
-				return
+				break replay
 			}
 			// observed before the cycle: is the tail ahead of the checkpoint and unpruned?
 			if !pendingStart {
@@ -783,14 +848,14 @@ func (r *replayer) run() {
 			for _, c := range cs {
 				called[int(c.H)] = true
 			}
-			for f := range failedBefore {
+			_, _ = tailNow, headNow
+			for f := range failedBefore { // conformance: the code (like the model) retries every failed height in every cycle
 				if f >= tailNow && f <= headNow && !called[f] {
-					r.rep.Violate(sigNoRetry, fmt.Sprintf("height %d was recorded as failed before the cycle and the cycle did not retry it", f),
-						r.replayObj(map[string]any{"height": f}))
+					r.driftf("height %d was in the failed set before the cycle and the cycle did not retry it", f)
 				}
 			}
 			_, failedNow := r.observeCheckpoint(false, "after cycle")
-			r.monitorAllOld(failedNow)
+			r.monitorAllOld(failedNow, called)
 			i = j
 		case "Head":
 			ht := in.Time[s.H-1]
@@ -903,11 +968,15 @@ func (r *replayer) run() {
 			}
 			r.startPt = int(r.st.TailHeight())
 			r.okPruned, r.clampSkip = map[int]bool{}, map[int]bool{}
+			r.unsat, r.noRetry = map[int]int{}, map[int]int{}
 			r.compareState(s, "Reset")
 			r.rep.Count("resets", 1)
 		default:
 			r.driftf("unknown model step %q", s.N)
 		}
+	}
+	if !r.aborted && len(r.drift) == 0 && !pendingStart && r.odDone == nil {
+		r.soak()
 	}
 }
 
